@@ -76,6 +76,57 @@ func runC18(c *core.Ctx) {
 	c.Rule("R18.3", "relay goroutine joined before close (shared with R16.4)")
 	c.Rule("R18.5", "only the drip buffer is forwarded, or other data when nothing is pending")
 	c.Rule("R18.4", "drip buffer / safekeeper buffer / validator hashing context are one pwr.BlockSize block")
+	c.Rule("R18.6", "every writer the validating pool hands out validates")
+	if gw := c.P.Fn("pwr", "ValidatingPool.GetWriter"); gw == nil {
+		c.Missing("R18.6", "pwr.(*ValidatingPool).GetWriter", "not found")
+	} else {
+		// every non-nil writer returned is a drip.Writer literal whose Validate is set to a function that calls the
+		// block validator (no shortcut hands out the inner writer, or a writer without a validator)
+		n := 0
+		for _, rs := range core.Returns(gw, 0) {
+			if rs.Val == nil || core.IsNilConst(rs.Val) {
+				continue
+			}
+			n++
+			okW := true
+			any := false
+			for _, o := range core.Origins(rs.Val) {
+				if core.IsNilConst(o) {
+					continue
+				}
+				any = true
+				a, isA := core.StripConv(o).(*ssa.Alloc)
+				if mi, isMI := o.(*ssa.MakeInterface); isMI {
+					a, isA = mi.X.(*ssa.Alloc)
+				}
+				if !isA || core.TypeName(a.Type()) != "pwr/drip.Writer" {
+					okW = false
+					continue
+				}
+				v, has := litField(a, "Validate")
+				calls := false
+				if has {
+					for _, fo := range core.Origins(v) {
+						if mc, ok := fo.(*ssa.MakeClosure); ok {
+							if f, ok := mc.Fn.(*ssa.Function); ok {
+								core.Instrs(f, func(x ssa.Instruction) {
+									if cl, ok := x.(*ssa.Call); ok && cl.Call.IsInvoke() && strings.HasPrefix(cl.Call.Method.Name(), "ValidateAs") {
+										calls = true
+									}
+								})
+							}
+						}
+					}
+				}
+				if !calls {
+					okW = false
+				}
+			}
+			c.Check(any && okW, "R18.6", core.FnName(gw), "returned writer is a validating drip writer", core.InstrPos(rs.Ret),
+				"a drip.Writer literal whose Validate calls the block validator", "GetWriter can hand out a writer that is not a drip.Writer with a validating callback (a shortcut for some files): what is written through it is not checked")
+		}
+		c.Floor("R18.6", "writers returned by GetWriter", n, 1)
+	}
 	c.Rule("R05.1", "healthy verdict only under index-in-range and strong-hash equality (shared with C05)")
 	if kinds := woundKinds(c.P); len(kinds) >= 4 {
 		ruleHealthyVerdict(c, kinds)
